@@ -586,6 +586,8 @@ def replay_discrete_w(payload):
                 return False
             return True
 
+        outs = {}
+        raised = set()
         bad_L = set()       # lambdas whose direct power_divergence call already failed: wrappers / relations not re-reported
         todo = [c for c in calls if only is None or [c[0], c[1], list(c[2])] == only[:3]]
         if only is None and not payload.get("full"):
@@ -607,7 +609,10 @@ def replay_discrete_w(payload):
             try:
                 out = _call(fn_of(fname, k + hs), X, Y, Z if k % 3 else tuple(Z), frame("base"), lam_arg, L, boolean=False)
             except Exception as ex:  # noqa
-                if L not in bad_L:
+                raised.add((fname, lam_arg, L))
+                if "invalid string for lambda_" in repr(ex):       # a documented lambda_ name that the function rejects
+                    fail(fname, "raises", L, {"lambda_name": lam_arg}, repr(ex)[:200], list(exp[L]), call)
+                elif L not in bad_L:
                     fail(fname, "raises", L, feats, repr(ex)[:200], list(exp[L]), call)
                     bad_L.add(L)
                 continue
@@ -615,12 +620,13 @@ def replay_discrete_w(payload):
                 continue
             if check_tuple(fname, lam_arg, L, out, "", feats, call):
                 ok_calls.append((fname, lam_arg, L))
+                outs[(fname, lam_arg, L)] = out
             else:
                 bad_L.add(L)
         # ---- verdict rule: boolean = (p_value >= significance_level)
         vsel = ok_calls if payload.get("full") else rng.sample(ok_calls, min(2, len(ok_calls)))
         # calls whose base run failed are still probed for the verdict on ONE alpha (the user-visible consequence)
-        failed_calls = [c for c in todo if c not in ok_calls and c[0] == "power_divergence" and c[1] not in ("", "num")]
+        failed_calls = [c for c in todo if c not in ok_calls and c not in raised and c[0] == "power_divergence" and c[1] not in ("", "num")]
         for (fname, lam_arg, L) in vsel + failed_calls[:2]:
             r = res[L]
             for ai, a in enumerate(alphas):
@@ -646,6 +652,24 @@ def replay_discrete_w(payload):
                     break
                 if not isinstance(got, (bool, np.bool_)) or bool(got) != want:
                     fail(fname, "verdict", L, feats, repr(got), want, call)
+                    break
+        # ---- verdict rule at the boundary, as a two-run relation: with alpha = the p-value the function itself returned the
+        #      verdict must be True, with the next larger double it must be False (bitwise deterministic, no tolerance involved)
+        for (fname, lam_arg, L) in [c for c in vsel if c in outs][:1]:
+            if only is not None and only[3] not in ("base", "verdict_boundary"):
+                continue
+            pv = float(outs[(fname, lam_arg, L)][1])
+            call = [fname, lam_arg, list(L), "verdict_boundary"]
+            for a, want in ((pv, True), (float(np.nextafter(pv, 2.0)), False)):
+                ncalls += 1
+                st["verdict"] += 1
+                try:
+                    got = _call(fn_of(fname, hs), X, Y, Z, frame("base"), lam_arg, L, boolean=True, significance_level=a)
+                except Exception as ex:  # noqa
+                    fail(fname, "verdict.raises", L, features_for(case, L), repr(ex)[:200], want, call)
+                    break
+                if bool(got) != want:
+                    fail(fname, "verdict_boundary", L, {"alpha_is_p": want}, [repr(got), pv, a], want, call)
                     break
         # ---- two-run relations: every variant must give the SAME specified result
         variants = ["swap_xy", "row_perm", "labels_str", "labels_shift", "labels_cat", "labels_cat_unobserved", "names_int"]
@@ -952,6 +976,13 @@ def replay_pearson_w(payload):
                     got = fn(X, Y, Z, df, boolean=True, significance_level=a)
                     if not isinstance(got, (bool, np.bool_)) or bool(got) != (p_exp >= a):
                         fail("verdict", feats, repr(got), p_exp >= a, c)
+                        break
+                # boundary of the verdict rule as a two-run relation (alpha = the p-value the function itself returned)
+                for a, want in ((p, True), (float(np.nextafter(p, 2.0)), False)):
+                    ncalls += 1
+                    got = fn(X, Y, Z, df, boolean=True, significance_level=a)
+                    if bool(got) != want:
+                        fail("verdict_boundary", {"alpha_is_p": want}, [repr(got), p, a], want, c)
                         break
             else:
                 # two-run relation: the re-parametrised run must reproduce the base run (and hence the specified value)
